@@ -126,6 +126,8 @@ impl Shared {
 pub enum FeOp {
 	Call,
 	Batch(usize),
+	/// the same batch, but the caller asks for `String` results (an answer of another JSON type cannot be decoded)
+	BatchStr(usize),
 	Subscribe,
 	/// subscribe and drop the stream as soon as it exists (the client then sends an unsubscribe)
 	SubscribeDrop,
@@ -197,11 +199,12 @@ pub struct CliState {
 }
 
 /// `[entry,...]#s<successes>f<failures>o<into_ok agrees>`; an entry is the JSON value or `E<code>`.
-pub fn batch_summary(b: BatchResponse<Value>) -> String {
+pub fn batch_summary<R: serde::Serialize + Clone + std::fmt::Debug>(b: BatchResponse<R>) -> String {
+	let js = |v: &R| serde_json::to_string(v).unwrap_or_else(|_| "?".into());
 	let items: Vec<String> = b
 		.iter()
 		.map(|e| match e {
-			Ok(v) => v.to_string(),
+			Ok(v) => js(v),
 			Err(e) => format!("E{}", e.code()),
 		})
 		.collect();
@@ -212,13 +215,13 @@ pub fn batch_summary(b: BatchResponse<Value>) -> String {
 	// otherwise they hand out exactly the error entries
 	let by_ref_agrees = match b.ok() {
 		Ok(it) => {
-			let got: Vec<String> = it.map(|v| v.to_string()).collect();
-			n_ok == b.len() && got == b.iter().filter_map(|e| e.as_ref().ok().map(|v| v.to_string())).collect::<Vec<_>>()
+			let got: Vec<String> = it.map(|v| js(v)).collect();
+			n_ok == b.len() && got == b.iter().filter_map(|e| e.as_ref().ok().map(|v| js(v))).collect::<Vec<_>>()
 		}
 		Err(it) => n_ok != b.len() && it.count() == b.len() - n_ok,
 	};
 	let by_value_agrees = match b.clone().into_ok() {
-		Ok(it) => it.map(|v| v.to_string()).collect::<Vec<_>>() == b.iter().filter_map(|e| e.as_ref().ok().map(|v| v.to_string())).collect::<Vec<_>>() && n_ok == b.len(),
+		Ok(it) => it.map(|v| js(&v)).collect::<Vec<_>>() == b.iter().filter_map(|e| e.as_ref().ok().map(|v| js(v))).collect::<Vec<_>>() && n_ok == b.len(),
 		Err(it) => n_ok != b.len() && it.count() == b.len() - n_ok,
 	};
 	let agrees = into_ok_is_ok == (n_ok == b.len()) && by_ref_agrees && by_value_agrees;
@@ -406,6 +409,15 @@ pub fn setup(cfg: &CliScenarioCfg) -> CliState {
 					let r: Result<BatchResponse<Value>, Error> = client.batch_request(b).await;
 					r.map(batch_summary).map_err(|e| err_str(&e))
 				}
+				FeOp::BatchStr(k) => {
+					let mut b = BatchRequestBuilder::new();
+					let name = format!("bm{i}");
+					for j in 0..k {
+						b.insert(&name, rpc_params![j as u64]).unwrap();
+					}
+					let r: Result<BatchResponse<String>, Error> = client.batch_request(b).await;
+					r.map(batch_summary).map_err(|e| err_str(&e))
+				}
 				FeOp::Subscribe | FeOp::SubscribeDrop | FeOp::RegisterNotif | FeOp::SubscribeHold | FeOp::LateSubscribe => {
 					let r: Result<Subscription<Value>, Error> = if op == FeOp::RegisterNotif {
 						client.subscribe_to_method(&format!("evt{i}")).await
@@ -541,7 +553,7 @@ pub fn wire_index_of(sent: &[String], op: &FeOp, i: usize) -> Option<usize> {
 	sent.iter().position(|m| {
 		let Ok(v) = serde_json::from_str::<Value>(m) else { return false };
 		match op {
-			FeOp::Batch(_) | FeOp::LateBatch(_) => v.as_array().map_or(false, |a| a.first().and_then(|e| e.get("method")).and_then(|x| x.as_str()) == Some(&format!("bm{i}"))),
+			FeOp::Batch(_) | FeOp::LateBatch(_) | FeOp::BatchStr(_) => v.as_array().map_or(false, |a| a.first().and_then(|e| e.get("method")).and_then(|x| x.as_str()) == Some(&format!("bm{i}"))),
 			FeOp::Subscribe | FeOp::SubscribeDrop | FeOp::SubscribeHold | FeOp::LateSubscribe => v.get("method").and_then(|x| x.as_str()) == Some("sub") && v.get("params") == Some(&json!([i])),
 			FeOp::Notif => v.get("method").and_then(|x| x.as_str()) == Some("note") && v.get("params") == Some(&json!([i])),
 			FeOp::Call | FeOp::LateCall | FeOp::AbandonCall => v.get("method").and_then(|x| x.as_str()) == Some("m") && v.get("params") == Some(&json!([i])),
